@@ -288,8 +288,15 @@ def r15_6(ctx):
         ("sizeof(type name)", "unary_expr", lambda r: [Tok("SIZEOF", "sizeof"), tree(r, "type_name")]),
         ("_Alignof(type name)", "unary_expr", lambda r: [Tok("ALIGNOF", "_Alignof"), tree(r, "type_name")]),
         ("compound literal", "postfix_expr", lambda r: [tree(r, "type_name"), tree(r, "initializer_list")]),
-        ("call without arguments / array or function declarator", "unsupported_syntax", lambda r: [r.pure("items[0]", vt=mk_vt("t0", True, 32))]),
     ]
+    # the callback the aliased alternatives are routed to (read from the grammar, whatever it is called)
+    alias_cbs = set()
+    for rname, skel in (("postfix_expr", ". LPAR RPAR"), ("direct_declarator", ". LSQB RSQB"), ("direct_declarator", ". LSQB MUL_OP RSQB"), ("direct_declarator", ". LPAR RPAR")):
+        for a in gm.rules.get(rname, []):
+            if a.skeleton() == skel and a.alias:
+                alias_cbs.add(str(a.alias))
+    for cb in sorted(alias_cbs):
+        rejecting.append((f"call without arguments / array or function declarator (callback {cb})", cb, lambda r: [r.pure("items[0]", vt=mk_vt("t0", True, 32))]))
     for desc, cb, mk in rejecting:
         if cb not in cbs:
             ctx.check(f"{desc} is rejected", False, "raises", f"no callback `{cb}`", "rzilcompiler/Transformer/RZILTransformer.py")
